@@ -1,96 +1,81 @@
-(* C16: the one known defect class of the formatter round trip, in closed form.
+(* C16: the defect class of the formatter round trip that was REPAIRED in /repo (fix commit <commit>),
+   in closed form; kept for the regression lemmas and to name a recurrence in the correspondence run.
 
-   A literal 0 that ends the first operand or starts the second operand of an `if` is printed next
-   to the comparison operator, and fun.lalrpop's lexer fuses `0 ==`, `== 0`, ... into the terminals
-   of the zero-comparison productions.
-   [renorm p]   what formatting + reparsing makes of a parser-shaped program: Some p' (p' = p outside
-                the class) or None (the output does not parse).  Compared with the implementation on
-                every case of the correspondence run (RunFmt.v).
-   [zsafe p]    the guard of the round-trip theorem: no `if` has a zero literal next to its operator.
-                zsafe p -> renorm p = Some p  (FmtProof.zsafe_renorm). *)
+   Before the repair a literal 0 that ends the first operand or starts the second operand of an `if`
+   was printed next to the comparison operator, and fun.lalrpop's lexer fuses `0 ==`, `== 0`, ...
+   into the terminals of the zero-comparison productions.
+   [old_renorm p]  what formatting + reparsing with the OLD printer (Printer.old_d_prog) made of a
+                parser-shaped program: Some p' (p' = p outside the class) or None (the output did not
+                parse).  RunFmt.v uses it to label a failure `..:minus-zero-comparison` /
+                `..:zero-literal-comparison` (a recurrence; a violation like any other).
+   [zsafe p]    the guard the round-trip theorem needed before the repair: no `if` has a zero literal
+                next to its operator.  zsafe p -> old_renorm p = Some p  (FmtProof.zsafe_renorm). *)
 From Coq Require Import List ZArith NArith String Ascii Bool.
 From SCC Require Import Base.Sexp Lang.SynUtil Lang.FunSyn Model.Printer Model.Parser.
 Import ListNotations.
 Open Scope string_scope.
 
 Definition is_lit0 (t : fterm) : bool := match t with FLit 0%Z => true | _ => false end.
-(* the first / last atom of the printed term is the literal 0 *)
-Fixpoint starts_zero (t : fterm) : bool :=
-  match t with
-  | FLit 0%Z => true
-  | FOp a _ _ => starts_zero a
-  | FDtor s _ _ _ _ => starts_zero s
-  | FCase s _ _ _ => starts_zero s
-  | _ => false
-  end.
-Fixpoint ends_zero (t : fterm) : bool :=
-  match t with
-  | FLit 0%Z => true
-  | FOp _ _ b => ends_zero b
-  | FPrint _ _ next _ => ends_zero next
-  | FLet _ _ _ body _ => ends_zero body
-  | FExit a _ => ends_zero a
-  | _ => false
-  end.
+(* [starts_zero] / [ends_zero] (the first / last atom of the printed term is the literal 0): Model/Printer.v *)
 
 Definition omap_t (f : fterm -> option fterm) : list fterm -> option (list fterm) :=
   fix go (l : list fterm) : option (list fterm) :=
     match l with [] => Some [] | x :: r => do y <- f x; do ys <- go r; Some (y :: ys) end.
 
-(* What formatting + reparsing makes of a parser-shaped term: None = the output does not parse. *)
-Fixpoint renorm_t (t : fterm) : option fterm :=
+(* What formatting with the OLD printer + reparsing made of a parser-shaped term: None = the output did not parse. *)
+Fixpoint old_renorm_t (t : fterm) : option fterm :=
   match t with
   | FVar _ _ _ | FLit _ => Some t
-  | FOp a o b => do a' <- renorm_t a; do b' <- renorm_t b; Some (FOp a' o b')
+  | FOp a o b => do a' <- old_renorm_t a; do b' <- old_renorm_t b; Some (FOp a' o b')
   | FIfC s a b th el ty =>
-      do a' <- renorm_t a; do th' <- renorm_t th; do el' <- renorm_t el;
+      do a' <- old_renorm_t a; do th' <- old_renorm_t th; do el' <- old_renorm_t el;
       match b with
       | None =>
           if is_lit0 a then Some (FIfC (flip s) (FLit 0) None th' el' ty)          (* if 0 s 0 *)
           else if ends_zero a then None
           else Some (FIfC s a' None th' el' ty)
       | Some b0 =>
-          do b' <- renorm_t b0;
+          do b' <- old_renorm_t b0;
           if is_lit0 a then Some (FIfC (flip s) b' None th' el' ty)                (* if 0 s b: the flipped production *)
           else if ends_zero a then None                                            (* .. 0 s: terminal r"0\s*s" inside the term *)
           else if is_lit0 b0 then Some (FIfC s a' None th' el' ty)                 (* if a s 0: the zero production *)
           else if starts_zero b0 then None                                         (* r"s\s*0" then the rest of b *)
           else Some (FIfC s a' (Some b') th' el' ty)
       end
-  | FPrint nl a next ty => do a' <- renorm_t a; do n' <- renorm_t next; Some (FPrint nl a' n' ty)
-  | FLet v vty bound body ty => do b' <- renorm_t bound; do t' <- renorm_t body; Some (FLet v vty b' t' ty)
-  | FCall f args ret => do args' <- omap_t renorm_t args; Some (FCall f args' ret)
-  | FCtor x args ty => do args' <- omap_t renorm_t args; Some (FCtor x args' ty)
-  | FDtor s x targs args ty => do s' <- renorm_t s; do args' <- omap_t renorm_t args; Some (FDtor s' x targs args' ty)
+  | FPrint nl a next ty => do a' <- old_renorm_t a; do n' <- old_renorm_t next; Some (FPrint nl a' n' ty)
+  | FLet v vty bound body ty => do b' <- old_renorm_t bound; do t' <- old_renorm_t body; Some (FLet v vty b' t' ty)
+  | FCall f args ret => do args' <- omap_t old_renorm_t args; Some (FCall f args' ret)
+  | FCtor x args ty => do args' <- omap_t old_renorm_t args; Some (FCtor x args' ty)
+  | FDtor s x targs args ty => do s' <- old_renorm_t s; do args' <- omap_t old_renorm_t args; Some (FDtor s' x targs args' ty)
   | FCase s targs cls ty =>
-      do s' <- renorm_t s;
+      do s' <- old_renorm_t s;
       do cls' <- (fix go (l : list fclause) : option (list fclause) :=
                     match l with
                     | [] => Some []
-                    | FClause p x ns g body :: r => do b' <- renorm_t body; do r' <- go r; Some (FClause p x ns g b' :: r')
+                    | FClause p x ns g body :: r => do b' <- old_renorm_t body; do r' <- go r; Some (FClause p x ns g b' :: r')
                     end) cls;
       Some (FCase s' targs cls' ty)
   | FNew cls ty =>
       do cls' <- (fix go (l : list fclause) : option (list fclause) :=
                     match l with
                     | [] => Some []
-                    | FClause p x ns g body :: r => do b' <- renorm_t body; do r' <- go r; Some (FClause p x ns g b' :: r')
+                    | FClause p x ns g body :: r => do b' <- old_renorm_t body; do r' <- go r; Some (FClause p x ns g b' :: r')
                     end) cls;
       Some (FNew cls' ty)
-  | FLabel l t ty => do t' <- renorm_t t; Some (FLabel l t' ty)
-  | FGoto l t ty => do t' <- renorm_t t; Some (FGoto l t' ty)
-  | FExit a ty => do a' <- renorm_t a; Some (FExit a' ty)
-  | FParen t => do t' <- renorm_t t; Some (FParen t')
+  | FLabel l t ty => do t' <- old_renorm_t t; Some (FLabel l t' ty)
+  | FGoto l t ty => do t' <- old_renorm_t t; Some (FGoto l t' ty)
+  | FExit a ty => do a' <- old_renorm_t a; Some (FExit a' ty)
+  | FParen t => do t' <- old_renorm_t t; Some (FParen t')
   end.
-Definition renorm_decl (d : fdecl) : option fdecl :=
+Definition old_renorm_decl (d : fdecl) : option fdecl :=
   match d with
-  | FDDef d => do b <- renorm_t (fdbody d); Some (FDDef (mkfdef (fdname d) (fdctx d) (fdret d) b))
+  | FDDef d => do b <- old_renorm_t (fdbody d); Some (FDDef (mkfdef (fdname d) (fdctx d) (fdret d) b))
   | _ => Some d
   end.
-Definition renorm (p : fprog) : option fprog := do ds <- omap renorm_decl (fpdecls p); Some (mkfprog ds).
+Definition old_renorm (p : fprog) : option fprog := do ds <- omap old_renorm_decl (fpdecls p); Some (mkfprog ds).
 
 
-(* ---------- the guard ---------- *)
+(* ---------- the guard (needed before the repair) ---------- *)
 Fixpoint zsafe (t : fterm) : bool :=
   match t with
   | FVar _ _ _ | FLit _ => true
